@@ -77,6 +77,16 @@ Definition c40_gen_ok (c : c40_case) : bool :=
 '''
 
 
+PF_HEADER = '''(* GENERATED by harness/pr2v.py from predicate_formula.parse_predicate_formula -- do not edit. *)
+From Coq Require Import ZArith List Bool String.
+Import ListNotations.
+Require Import Grist.Model.Predicate Grist.Model.PredicateRename Grist.Model.PredVisit GristGen.Predicate_gen.
+Open Scope Z_scope.
+Open Scope list_scope.
+
+'''
+
+
 def regenerate(ctx):
   """coq/gen/Predicate_gen.v from the visitor methods of the tree being checked (fail closed)."""
   from harness import pf2v
@@ -84,9 +94,15 @@ def regenerate(ctx):
     text = pf2v.translate(core.GRIST)
   except pf2v.Untranslatable as e:
     raise core.TieBroken('predicate_formula / collector methods are outside the translated subset: %s' % e)
-  ctx.extra['pinned_glue'] = predgen.check_pinned_glue(['predicate_formula.parse_predicate_formula',
-                                                        'predicate_formula.parse_predicate_formula_json'])
+  ctx.extra['pinned_glue'] = predgen.check_pinned_glue(['predicate_formula.parse_predicate_formula_json'])
   core.write_if_changed(os.path.join(core.COQ, 'gen', 'Predicate_gen.v'), text)
+  from harness import pr2v
+  try:
+    pf_text = PF_HEADER + pr2v.translate_parse_formula(os.path.join(core.GRIST, 'predicate_formula.py'))
+  except pr2v.Untranslatable as e:
+    raise core.TieBroken('predicate_formula.parse_predicate_formula is outside the translated subset: %s' % e)
+  core.write_if_changed(os.path.join(core.COQ, 'gen', 'ParseFormula_gen.v'), pf_text)
+  ctx.extra['regenerated_parse'] = 'coq/gen/ParseFormula_gen.v: gen_parse_predicate_formula generated from parse_predicate_formula'
   ctx.extra['regenerated'] = ('coq/gen/Predicate_gen.v: %d definitions generated from predicate_formula.py, acl.py, '
                               'dropdown_condition.py, trigger_expression.py' % text.count('\nDefinition '))
 
